@@ -1,0 +1,20 @@
+//go:build verif
+
+// Contracts for the clock safeguard (machine-checked by /verif's VC
+// generator; comment-only, adds no code).
+package timesafeguard
+
+//@ func timeResult.worstCaseDrift
+//@   arith exact
+//@   pure
+//@   requires t.Start <= t.End
+//@   ensures sound: forall theta int, u0 int :: t.Start <= u0 && u0 <= t.End && t.Result == u0 + theta && result < ElectionTimeout ==> abs(theta) < ElectionTimeout
+//@   ensures nonneg: result >= 0
+
+//@ func timeInSync
+//@   requires forall k int :: 0 <= k && k < len(results) ==> results[k].Start <= results[k].End
+//@   ensures iff: result <==> (forall k int :: 0 <= k && k < len(results) ==> results[k].worstCaseDrift() < ElectionTimeout)
+//@   modifies
+//@   loop range results
+//@     invariant forall k int :: 0 <= k && k <= rangeindex ==> results[k].worstCaseDrift() < ElectionTimeout
+//@     invariant 0 - 1 <= rangeindex
